@@ -239,6 +239,70 @@ impl<T: Type> Type for Evil<T> {
     }
 }
 
+// ---- a two-gadget circuit built from public parts (harness code) --------------------------------------
+//
+// Every circuit the library ships has exactly one gadget, but `Flp` explicitly supports several. This small circuit
+// (pairs (x, y) with 2 <= x < 5 and y = x^3: `Mul` called twice, `PolyEval` of (X-2)(X-3)(X-4) called once; outputs
+// [x^3 - y, range(x)]) lets the Byzantine-client and tampering configurations reach the multi-gadget paths of
+// prove / query / decide.
+#[derive(Clone, Debug, PartialEq, Eq)]
+pub struct CubeInRange;
+
+impl Flp for CubeInRange {
+    type Field = Field128;
+    fn gadget(&self) -> Vec<Box<dyn Gadget<Field128>>> {
+        let f = |x: u128| Field128::from(x);
+        vec![Box::new(Mul::new(2)), Box::new(prio::flp::gadgets::PolyEval::new(vec![-f(24), f(26), -f(9), f(1)], 1))]
+    }
+    fn num_gadgets(&self) -> usize {
+        2
+    }
+    fn valid(&self, g: &mut Vec<Box<dyn Gadget<Field128>>>, input: &[Field128], joint_rand: &[Field128], _n: usize) -> Result<Vec<Field128>, FlpError> {
+        self.valid_call_check(input, joint_rand)?;
+        let (x, y) = (input[0], input[1]);
+        let x2 = g[0].eval(&[x, x])?;
+        let x3 = g[0].eval(&[x2, x])?;
+        let range = g[1].eval(&[x])?;
+        Ok(vec![x3 - y, range])
+    }
+    fn input_len(&self) -> usize {
+        2
+    }
+    fn proof_len(&self) -> usize {
+        (2 + 7) + (1 + 4)
+    }
+    fn verifier_len(&self) -> usize {
+        1 + (2 + 1) + (1 + 1)
+    }
+    fn joint_rand_len(&self) -> usize {
+        0
+    }
+    fn eval_output_len(&self) -> usize {
+        2
+    }
+    fn prove_rand_len(&self) -> usize {
+        3
+    }
+}
+
+impl Type for CubeInRange {
+    type Measurement = (u128, u128);
+    type AggregateResult = (u128, u128);
+    fn encode_measurement(&self, m: &(u128, u128)) -> Result<Vec<Field128>, FlpError> {
+        Ok(vec![Field128::from(m.0), Field128::from(m.1)])
+    }
+    fn truncate(&self, input: Vec<Field128>) -> Result<Vec<Field128>, FlpError> {
+        self.truncate_call_check(&input)?;
+        Ok(input)
+    }
+    fn decode_result(&self, data: &[Field128], _n: usize) -> Result<(u128, u128), FlpError> {
+        Ok((u128::from(data[0]), u128::from(data[1])))
+    }
+    fn output_len(&self) -> usize {
+        2
+    }
+}
+
 // ---- Prio3 adapter ------------------------------------------------------------------------------
 
 pub trait IntoU128 {
@@ -472,6 +536,7 @@ p3class!(CHist, Histogram<Field128, PS128>, |s, m| m[0].0 as usize, |r| r.clone(
 p3class!(CHistMt, Histogram<Field128, PSM128>, |s, m| m[0].0 as usize, |r| r.clone(), |i| Histogram::new(i.len as usize, i.chunk as usize).ok());
 p3class!(CMulti, MultihotCountVec<Field128, PS128>, |s, m| m.iter().map(|x| x.0 != 0).collect(), |r| r.clone(), |i| MultihotCountVec::new(i.len as usize, i.weight as usize, i.chunk as usize).ok());
 p3class!(CMultiMt, MultihotCountVec<Field128, PSM128>, |s, m| m.iter().map(|x| x.0 != 0).collect(), |r| r.clone(), |i| MultihotCountVec::new(i.len as usize, i.weight as usize, i.chunk as usize).ok());
+p3class!(CCube, CubeInRange, |s, m| (m[0].0, m[1].0), |r| vec![r.0, r.1], |i| { let _ = i; Some(CubeInRange) });
 p3class!(CL1, L1BoundSum<Field128, PS128>, |s, m| m.iter().map(|x| x.0).collect(), |r| r.clone(), |i| L1BoundSum::new(i.max.0, i.len as usize, i.chunk as usize).ok());
 
 pub enum BuildErr {
@@ -583,6 +648,7 @@ fn dispatch_inner<Vis: Visitor>(inst: &Inst, vis: Vis) -> Result<Vis::Out, Build
             let t = L1BoundSum::<Field128, PS128>::new(max, len, chunk).map_err(flp_err)?;
             go_p3(inst, CL1(t), use_named.then(|| Prio3::new_l1_bound_sum(n, max, len, chunk)), 7, vis)
         }
+        ("cube", _) => go_p3(inst, CCube(CubeInRange), None, 0xFFFF2001, vis),
         ("poplar1", _) => {
             let vdaf = prio::vdaf::poplar1::Poplar1::new_turboshake128(len);
             let ad = crate::inst_poplar::PopAd { inst: inst.clone() };
